@@ -81,6 +81,9 @@ Inductive eop :=
 | EReadServed (o1 o2 : option Z)   (* a fresh read while the index rebuilder runs freely (not held by the harness): the
                                       state is observed after the rebuilder has gone idle, i.e. after it has served what
                                       the read asked for *)
+| ETruncate (k : nat)              (* TRUNCATE has removed the k oldest chunks of the journal *)
+| EPosRead (o1 o2 : option Z) (pc pi : Z)
+    (* a fresh range query that starts from the saved position (chunk pc, record pi) and is read to the end: its events *)
 | ERestart                         (* clean shutdown and start *)
 | EDescribe                        (* Service.GetParitionInfo *)
 | EDescribeServed                  (* the same while the rebuilder runs freely; observed when it is idle again *)
@@ -131,6 +134,8 @@ Definition to_op (o : eop) : op :=
   | ECRead o1 o2 => HRead o1 o2
   | EReadServed o1 o2 => HRead o1 o2
   | ERestart => HRestart
+  | ETruncate _ => HSync           (* not used: handled in e_check_step *)
+  | EPosRead o1 o2 _ _ => HRead o1 o2
   | EDescribe => HDescribe
   | EDescribeServed => HDescribe
   | ESelOpen _ _ => HSync     (* not used: handled in e_check_step *)
@@ -170,10 +175,12 @@ Definition e_check_step (ss : sel_state) (st : pstate) (o : eop) (b : eobs) : se
     let st' := match o with
                | EBatchServe _ seen => serve_seen impl_variant (step impl_variant st (to_op o)) seen
                | EReadServed _ _ | EDescribeServed => serve impl_variant (step impl_variant st (to_op o))
+               | ETruncate k => truncate k st
                | _ => step impl_variant st (to_op o)
                end in
     let ok_read :=
       match o with
+      | EPosRead o1 o2 pc pi => list_eqb z3_eqb (runs_of (fst (range_read_from false impl_variant st pc pi o1 o2)) None) (eo_events b)
       | EReadServed o1 o2 => list_eqb z3_eqb (runs_of (fst (range_read impl_variant st o1 o2)) None) (eo_events b)
       | ERead o1 o2 =>
           list_eqb z3_eqb (runs_of (fst (range_read impl_variant st o1 o2)) None) (eo_events b)
